@@ -21,7 +21,7 @@ FEATS = ["ext-edge", "dom-edge", "static-ext-edge", "explicit-order-edge", "part
          "conditional", "cond-3+cases", "cond-linear", "tail-loop", "tail-loop-rest", "cfg-diamond",
          "cfg-loop", "cfg-early", "cfg-asymmetric-branch", "poly-call", "poly-call-arity-change",
          "mode-insert", "recursive-call", "const", "depth-3", "nested-funcdefn", "load-function",
-         "call-indirect", "metadata"]
+         "call-indirect", "metadata", "shared-partial-op"]
 META = {
     "level": "exploration",
     "rule": ("case = builder program AST (JSON); distinct by JSON; non-trivial when the HUGR has >= 6 nodes and "
